@@ -30,6 +30,16 @@ Inv_NestedInclude == SCheck("Inv_NestedInclude",
         IN IF IsErr(Plainly) THEN IsErr(a)
            ELSE ~IsErr(a) /\ DataOf(a) = DataOf(WrapUnderKey(key, Plainly)))
 
+\* content included by unsafe content is unsafe, and is the same content
+ParsedUnsafe == [i \in 1..Len(ds) |-> Parse(Docs[ds[i]], FALSE)]
+Inv_UnsafeInclude == SCheck("Inv_UnsafeInclude",
+    phase = "built" =>
+        /\ SameOutcome(FoldDocs(ParsedUnsafe), Build("include_list", ParsedUnsafe))        \* an unsafe source that includes
+        /\ LET a == BuildUnderUnsafeKey(SKey("k"), ParsedUnsafe)
+           IN IF IsErr(Plainly) THEN IsErr(a)
+              ELSE /\ ~IsErr(a) /\ DataOf(a) = DataOf(WrapUnderKey(SKey("k"), Plainly))
+                   /\ AllUnsafe(Child(a, SKey("k"))))
+
 CompactOut(r) == IF IsErr(r) THEN [e |-> r.err] ELSE CompactN(r)
 Emit == phase = "built" => PrintT(ToJson([h |-> ds, x |-> CompactOut(Plainly)]))
 
